@@ -5,7 +5,14 @@ Monitor shape: differential + reference model. One seeded program of document-le
 histories (partition into commits x merge choice per commit x codec block limit x compound flag x
 storage kind); the canonical logical dump (vf.dump) of every history is compared with the dump of
 the single-commit optimised build of the final live documents, and with the model where the model
-can say something on its own (stored values, group structure, Nested* probe results).
+can say something on its own (stored values, group structure, Nested* probe results, sorted order by a unique key).
+
+Every BIG_EVERY-th case is a "big" case: the same kind of program over 24..40 documents that additionally carry a
+unique sortable ID key of ~55..6000 bytes and (mostly) a stored text blob of 50 bytes..25 KB, so that a segment holding
+most of the documents (the reference, an optimised or merged history) has variable-length per-document column streams
+("_stored", the VarBytes sort column) of 100..200 KB - several times the in-memory buffer of the per-document writer -
+with value sizes spread over two orders of magnitude, while the segments of small commits stay far below it. A reach
+model of that buffer (spill_profile) feeds the c06.big.* counters; it judges nothing.
 """
 import datetime
 import os
@@ -20,9 +27,15 @@ RULE = ("a case is one seeded corpus program (5..40 documents in groups of 1..4:
         "after the add it targets), per commit merge choice {merge=False, default MERGE_SMALL, optimize=True, custom "
         "policy merging a random subset}, per commit W3Codec(blocklimit), compound on/off, Ram/File(mmap on/off) storage, "
         "writer front-end per add-only commit {SegmentWriter, BufferedWriter, MpWriter, MpWriter(multisegment)}. "
+        "Every 7th case index is a 'big' case (extra values drawn from the separate stream ctx.rng(idx, 'big')): 24/32/40 documents, "
+        "each with a unique sortable ID key 'skey' (mean 2.5..8 KB x {0.02..3}, capped at 6000 bytes) and, with p=0.85, a stored "
+        "'blob' of poorly compressible text (same size law, uncapped), i.e. 100..200 KB per variable-length column stream of a "
+        "segment that holds all documents against a few KB in a small commit's segment; big cases add the model check "
+        "search(Every, sortedby=skey[, reverse]) == documents sorted by key, and count per layout whether a written segment's "
+        "sort-column / stored stream passed the 32 KB writer buffer twice and whether a later refill was shorter than an earlier one. "
         "A history is non-trivial when it produced >=2 commits and either a multi-segment final layout or at least "
         "one physical merge; distinct = distinct (schema options, per-commit (merge kind, #ops, merged?) signature, "
-        "final segment count, deletions present).")
+        "final segment count, deletions present); opts include the big flag.")
 ASSUMPTIONS = [
     "document order (doc numbers) is not part of the logical content: dumps are keyed by the stored unique key; only the relative order and adjacency of the members of one group is demanded",
     "terms whose every posting belongs to a deleted document stay in the lexicon until the segment is rewritten (the statement says optimising physically removes deleted documents): terms with an empty live posting list are dropped from both dumps before comparing",
@@ -33,6 +46,9 @@ ASSUMPTIONS = [
     "only whole groups or child documents are deleted (a child whose parent was deleted has no defined parent); every document is a parent or a child, so Nested* results are defined by group membership alone",
     "front-ends: SegmentWriter for every kind of commit; BufferedWriter (one flush per commit), MpWriter(procs=2) and MpWriter(multisegment=True) for add-only commits of histories without a separate spelling field; after optimize a single segment is demanded except for MpWriter(multisegment=True), which documents that it keeps its sub-writers' segments",
     "separate spelling fields (spell_<field>) hold a word list posted on document 0 of each segment, not per-document postings: their postings/term statistics are not compared; their lexicon is compared between deletion-free layouts (strictly when the program has no deletions; with deletions see listed finding C06-spelling-wordlist-on-doc0, population B only)",
+    "big cases: the sort key is unique among live documents and pure ASCII, so the order of a search sorted by it is fully defined (no ties, byte order == str order); only Every() is searched sorted (forward unlimited, reverse limit=3)",
+    "big cases: the c06.big.* reach counters come from a harness-side model of the per-document writer's 32 KB stream buffer fed with the sort-key byte lengths (exact) and an estimate of the deflated pickled stored dict (zlib level 3 of the model's stored dict); they only gate 'held' through FLOORS and never produce a failure",
+    "stored blobs are str values up to ~25 KB and sort keys single ID terms up to ~6 KB; larger values, non-str stored objects and more than 40 documents per corpus are not exercised",
     "population A keeps every scorable field length exactly representable by the one-byte length encoding (<=10 tokens); population B uses arbitrary lengths, where a merge re-adds byte-approximated lengths to the total field length (listed finding C06-merged-total-field-length)",
 ]
 SHARDS = {"quick": 4, "thorough": 16}
@@ -42,7 +58,10 @@ FLOORS = {"c06.cases": 40, "c06.histories": 200, "c06.dump.compares": 200, "c06.
           "c06.stats.compares": 150, "c06.score.compares": 4000, "c06.probe.compares": 6000,
           "c06.optimize.checks": 60, "c06.optimize.removed_field_checks": 30, "c06.group.checks": 1500,
           "c06.nested.checks": 200, "c06.pop.A": 25, "c06.pop.B": 8,
-          "c06.frontend.buffered": 40, "c06.frontend.mp": 10, "c06.frontend.mp-multi": 10}
+          "c06.frontend.buffered": 40, "c06.frontend.mp": 10, "c06.frontend.mp-multi": 10,
+          "c06.big.cases": 5, "c06.big.layouts": 30, "c06.sorted.checks": 30,
+          "c06.big.sortcol_spilled_twice": 25, "c06.big.sortcol_shorter_refill": 16,
+          "c06.big.stored_spilled_twice": 22, "c06.big.stored_shorter_refill": 16}
 
 VOC = ["alfa", "bravo", "charlie", "delta", "echo", "foxtrot", "golf", "hotel", "india", "juliet", "kilo", "lima",
        "mike", "november", "oscar", "papa", "quebec", "romeo", "sierra", "tango", "uniform", "victor", "whiskey",
@@ -50,7 +69,7 @@ VOC = ["alfa", "bravo", "charlie", "delta", "echo", "foxtrot", "golf", "hotel", 
 ZW = [1.0 / (i + 1) for i in range(len(VOC))]
 TAGS = ["red", "green", "blue", "cyan", "black"]
 # big cases (every BIG_EVERY-th case index): per-document value sizes = case mean x one of these factors
-BIG_EVERY = 5
+BIG_EVERY = 7
 BIG_FACTORS = [0.02, 0.1, 0.5, 1, 1, 2, 3]
 MAX_KEY = 6000              # longest sortable key (one ID term)
 KEY_ALPHA = "abcdefghijklmnopqrstuvwxyz0123456789"
